@@ -117,9 +117,18 @@ class WrappedInstance:
     This is needed to clean it up from the cache after the instance reference died.
     """
 
+    _instance_id_: Optional[int] = field(
+        init=False, hash=False, default=None, repr=False
+    )
+    """
+    The id of the instance.
+    This is needed to clean it up from the instance index after the instance reference died.
+    """
+
     def __post_init__(self, instance: Symbol):
         self.instance_reference = weakref.ref(instance)
         self.instance_type = type(instance)
+        self._instance_id_ = id(instance)
 
     @property
     def instance(self) -> Optional[Symbol]:
@@ -227,11 +236,21 @@ class SymbolGraph(metaclass=SingletonMeta):
 
         :param wrapped_instance: The instance to remove.
         """
-        self._instance_index.pop(id(wrapped_instance.instance), None)
+        # The instance may be dead already (and its id reused by a newer instance), so the bookkeeping entries are
+        # found through the wrapper and its edges, not through the instance.
+        if self._instance_index.get(wrapped_instance._instance_id_) is wrapped_instance:
+            del self._instance_index[wrapped_instance._instance_id_]
+        index = wrapped_instance.index
+        for _, _, relation in list(self._instance_graph.in_edges(index)) + list(
+            self._instance_graph.out_edges(index)
+        ):
+            self._relation_index.get(relation.wrapped_field, set()).discard(
+                (relation.source.index, relation.target.index)
+            )
         self._class_to_wrapped_instances[wrapped_instance.instance_type].remove(
             wrapped_instance
         )
-        self._instance_graph.remove_node(wrapped_instance.index)
+        self._instance_graph.remove_node(index)
 
     def remove_dead_instances(self):
         for node in self._instance_graph.nodes():
